@@ -18,6 +18,7 @@ import (
 	"bytes"
 	"compress/gzip"
 	"io"
+	"math"
 	"sync"
 
 	"connectrpc.com/connect"
@@ -86,6 +87,14 @@ func (p *compressionPool) compress(dst, src *bytes.Buffer) error {
 }
 
 func (p *compressionPool) decompress(dst, src *bytes.Buffer) error {
+	return p.decompressLimited(dst, src, math.MaxInt64-1)
+}
+
+// decompressLimited inflates src into dst. It stops with a "resource
+// exhausted" error as soon as the output exceeds limit bytes, so that a small
+// compressed payload cannot make the transcoder buffer an arbitrarily large
+// message.
+func (p *compressionPool) decompressLimited(dst, src *bytes.Buffer, limit int64) error {
 	if p == nil {
 		_, err := io.Copy(dst, src)
 		return err
@@ -96,8 +105,12 @@ func (p *compressionPool) decompress(dst, src *bytes.Buffer) error {
 	if err := decomp.Reset(src); err != nil {
 		return err
 	}
-	if _, err := dst.ReadFrom(decomp); err != nil {
+	if _, err := dst.ReadFrom(io.LimitReader(decomp, limit+1)); err != nil {
 		return err
+	}
+	if int64(dst.Len()) > limit {
+		_ = decomp.Close()
+		return bufferLimitError(limit)
 	}
 	return decomp.Close()
 }
